@@ -28,7 +28,9 @@ TEXT = ("TLC explores every interleaving of dispatching threads, worker loops (c
         "after all workers exited with panic propagation, plus liveness on the fair spec. Histories recorded from "
         "the real Dispatcher under seeded random programs are checked against the property's predicates directly "
         "and validated by TLC against a trace spec that reuses the model's actions.")
-NOTE = ("Bounds: model 3 tasks x 2 workers x 2 senders (faults, pool limits and dispatch_blocking on 2 tasks); "
+NOTE = ("Receivers are also dropped unresolved (fire-and-forget: at once, later, and while every worker is parked on "
+        "a gate so that the drop certainly precedes the start); every accepted closure must be started all the same. "
+        "Bounds: model 3 tasks x 2 workers x 2 senders (faults, pool limits and dispatch_blocking on 2 tasks); "
         "real runs: 1-3 workers, 1-3 dispatching threads, <= 6 tasks, both drivers. Trusted below their contract: "
         "flume channel, futures oneshot, executor task polling (C04), the blocking pool's own protocol (C17; pool "
         "capacity is not validated on traces). Dispatch cannot race with join (join takes self). Worker faults are "
@@ -370,7 +372,7 @@ def validate_all(run, lines, tmp, flagged, programs, chunks=1):
     return acc, drift, states, gen, left
 
 
-def build_controls(runs, both):
+def build_controls(runs, both, all_runs=None):
     """Corrupt one recorded field of an otherwise valid history: name -> (trace, line that must be the
     first unmatched one, oracle kind that must be flagged)."""
     flat = []
@@ -393,18 +395,33 @@ def build_controls(runs, both):
             break
     expect = {}
     if ia is not None:
-        expect["dupstart"] = (flat[:ia + 1] + [dict(flat[ia])] + flat[ia + 1:], ia + 2, "start_twice")
+        expect["dupstart"] = (flat[:ia + 1] + [dict(flat[ia])] + flat[ia + 1:], (ia + 2, ia + 2), "start_twice")
+    # C: a fire-and-forget closure that was accepted and never called: take a history in which the
+    # receiver of a dispatch() closure was dropped and delete everything the closure logged
+    for rs, evs in (all_runs if all_runs is not None else runs):
+        if rs["fault"] != "none" or not any(e["e"] == "jret" and e["r"] == "ok" for e in evs):
+            continue
+        asy = {e["id"] for e in evs if e["e"] == "dcall" and e["k"] == "async"}
+        vic = next((e["id"] for e in evs if e["e"] == "rdrop" and e["id"] in asy
+                    and any(x["e"] == "start" and x["id"] == e["id"] for x in evs)), None)
+        if vic is None:
+            continue
+        cut = [e for e in evs if not (e.get("id") == vic and e["e"] in ("start", "finish", "panic", "bodyerr"))]
+        lo = 2 + next(n for n, e in enumerate(evs) if e["e"] == "start" and e["id"] == vic)
+        hi = 2 + next(n for n, e in enumerate(cut) if e["e"] == "jret")
+        expect["forgotten_not_started"] = ([rs] + cut, (lo, hi), "accepted_never_started")
+        break
     if both and ib is not None:
         nfin, nrecv = ib
         expect["recv_before_finish"] = (flat[:nfin] + [flat[nrecv]] + flat[nfin:nrecv] + flat[nrecv + 1:],
-                                        nfin + 1, "result_unexplained")
+                                        (nfin + 1, nfin + 1), "result_unexplained")
     return expect
 
 
 def negative_controls(lines, tmp, both):
     """Started next to the real validation, on the first runs that satisfy the contract oracle."""
-    runs = [(rs, evs) for rs, evs in split_runs(lines) if not oracle(rs, evs)][:12]
-    expect = build_controls(runs, both)
+    clean = [(rs, evs) for rs, evs in split_runs(lines) if not oracle(rs, evs)]
+    expect = build_controls(clean[:12], both, clean)
     results = {}
 
     def work(name):
@@ -422,26 +439,30 @@ def negative_controls(lines, tmp, both):
 
 
 def finish_negative_controls(run, ths, results, expect, both):
-    """The corrupted trace must be rejected exactly at the corrupted line and the oracle must flag it."""
+    """The corrupted trace must be rejected at the corrupted line (for a deleted start: between the place
+    of the deleted event and the join.ret that can no longer happen) and the oracle must flag it."""
     for t in ths:
         t.join()
-    if "dupstart" not in expect or (both and "recv_before_finish" not in expect):
+    if "dupstart" not in expect or "forgotten_not_started" not in expect or \
+            (both and "recv_before_finish" not in expect):
         if run.violations:
             run.note("negative_controls", "skipped: no history without a contract violation to corrupt")
             return
-        raise vlib.ToolError("negative control: no start / finish+recv events in the first runs")
+        raise vlib.ToolError("negative control: no start / finish+recv / dropped-receiver events to corrupt "
+                             "(have %s)" % sorted(expect))
     for name, (tr, where, okind) in expect.items():
         x = results[name]
         if isinstance(x, BaseException):
             raise x
         ok, first = x
-        if not ok and first < where and run.violations:
+        lo, hi = where
+        if not ok and first < lo and run.violations:
             # the uncorrupted prefix is already rejected (the code under test misbehaves): inconclusive
             run.note("negative_control_" + name, "inconclusive: history rejected before the corrupted line")
             continue
-        if ok or first != where:
-            raise vlib.ToolError("negative control %s: corrupted trace %s (expected rejection at line %d)"
-                                 % (name, "accepted" if ok else "rejected at line %s" % first, where))
+        if ok or not (lo <= first <= hi):
+            raise vlib.ToolError("negative control %s: corrupted trace %s (expected rejection at line %d..%d)"
+                                 % (name, "accepted" if ok else "rejected at line %s" % first, lo, hi))
         kinds = set()
         for rs, evs in split_runs(tr):
             kinds |= {k for k, _ in oracle(rs, evs)}
@@ -456,9 +477,9 @@ def finish_negative_controls(run, ths, results, expect, both):
 def model_checking(tier, box):
     """Runs in background threads while the harness builds and records (two TLC at a time, 2 workers each)."""
     if tier == "quick":
-        chains = [["MC_Dispatcher.cfg", "MC_Dispatcher_matrix.cfg"], ["MC_Dispatcher_live.cfg", "POOL1"]]
+        chains = [["MC_Dispatcher.cfg", "MC_Dispatcher_matrix.cfg", "SKIP"], ["MC_Dispatcher_live.cfg", "POOL1"]]
     else:
-        chains = [["MC_Dispatcher_thorough.cfg", "POOL1"],
+        chains = [["MC_Dispatcher_thorough.cfg", "POOL1", "SKIP"],
                   ["MC_Dispatcher_matrix_thorough.cfg", "MC_Dispatcher_live_thorough.cfg"]]
     results = {}
 
@@ -474,6 +495,15 @@ def model_checking(tier, box):
                                              "got %s %s" % (r.violated, r.error))
                     results[cfg] = "JoinReturns violated as predicted (%d states)" % r.distinct
                     results["POOL1_cov"] = r.coverage
+                elif cfg == "SKIP":
+                    # control: a dispatcher that does not start a closure whose receiver was dropped
+                    # (SkipIfReceiverGone) must violate "every accepted closure is started"
+                    r = tlc_retry("Dispatcher", "MC_Dispatcher_skip.cfg", timeout=600, workers=2)
+                    if r.violated != "AllStartedAtJoin":
+                        raise vlib.ToolError("Dispatcher skip control: expected AllStartedAtJoin to be violated, "
+                                             "got %s %s" % (r.violated, r.error))
+                    results[cfg] = "AllStartedAtJoin violated as predicted (%d states)" % r.distinct
+                    results["SKIP_cov"] = r.coverage
                 else:
                     r = tlc_retry("Dispatcher", cfg, timeout=2700, workers=2)
                     vlib.require_model_ok(r, "Dispatcher/" + cfg)
@@ -490,10 +520,13 @@ def model_checking(tier, box):
         box["error"] = results["error"]
         return
     cov = dict(results.get("POOL1_cov", {}))     # JoinSpawnOnPool only exists in the pinned behaviour
+    for a, (d, t) in results.get("SKIP_cov", {}).items():     # SkipStart only exists in the control
+        od, ot = cov.get(a, (0, 0))
+        cov[a] = (od + d, ot + t)
     out = []
     for c in chains:
         for cfg in c:
-            if cfg == "POOL1":
+            if cfg in ("POOL1", "SKIP"):
                 continue
             r = results[cfg]
             for a, (d, t) in r.coverage.items():
@@ -505,6 +538,7 @@ def model_checking(tier, box):
         box["error"] = vlib.ToolError("Dispatcher: vacuous, actions never taken in any config: %s" % zero)
         return
     box["pool1_control"] = results["POOL1"]
+    box["skip_control"] = results["SKIP"]
     box["models"] = out
 
 
@@ -572,12 +606,16 @@ def run(run, tier, replay):
                 # the scenarios of the known findings, in their own processes, meanwhile: pool1
                 # (deterministic, one-slot pool), poolrace and poolpanic (default limit, races, repeated)
                 sc = {}
-                scen = [("pool1", []), ("poolrace", ["--repeat", "150" if tier == "quick" else "1500"]),
-                        ("poolpanic", ["--repeat", "300" if tier == "quick" else "3000"])]
+                # forget: fire-and-forget dispatches while every worker is parked on a gate (1..3 workers x
+                # both modes x dispatch / dispatch_blocking); its histories join the validated trace
+                scen = [("pool1", []), ("poolrace", ["--repeat", "60" if tier == "quick" else "1500"]),
+                        ("poolpanic", ["--repeat", "120" if tier == "quick" else "3000"]),
+                        ("forget", ["--repeat", "2" if tier == "quick" else "25"])]
 
                 def scenario(name, extra):
                     try:
-                        sc[name] = record(run, tmp, ["--scenario", name] + extra, name, {}, prebuilt)
+                        sc[name] = record(run, tmp, ["--scenario", name] + extra, name,
+                                          programs if name == "forget" else {}, prebuilt, first=1000000)
                     except BaseException as e:      # noqa: B902
                         sc[name] = e
                 sts = [threading.Thread(target=scenario, args=x) for x in scen]
@@ -616,6 +654,9 @@ def run(run, tier, replay):
                         raise sc[name]
                     _t, p2, c2, _s = sc[name]
                     problems += p2
+                    if name == "forget" and os.path.exists(_t):
+                        with open(_t) as f, open(trace, "a") as out:
+                            shutil.copyfileobj(f, out)
                     run.note("scenario_" + name, ("hang after %d runs" % c2) if any(p["type"] == "hang" for p in p2)
                              else "completed (%d runs)" % c2)
             vlib.log("C18: recorded in %.0fs" % (time.time() - t0))
@@ -678,6 +719,7 @@ def run(run, tier, replay):
             for name, r in box["models"]:
                 run.add_model(name, r)
             run.note("deviation_control", box["pool1_control"])
+            run.note("receiver_drop_control", box["skip_control"])
         else:
             run.note("model_checking", "skipped (replay / prebuilt recorder)")
             run.cov["states"] = run.cov["transitions"] = max(1, states)
